@@ -406,6 +406,11 @@ def mustStr (signedTarget : Bool) (mlo mhi : Int) (w : String) : Bool :=
     | some z => decide (mlo ≤ z ∧ z ≤ mhi)
     | none => false)
 
+/-- strings with float syntax whose meaning the Spec leaves open: decimal syntax with an absurd exponent (no
+    `decimalRat`), hexadecimal floats and `_` digit separators (not modelled) -/
+def leftOpen (w : String) : Bool :=
+  (decimalSyntax w).isSome || w.toList.any (fun c => c == 'x' || c == 'X' || c == 'p' || c == 'P' || c == '_')
+
 /-- The property for a string source `w`: the numeric meaning of a string is given by the decimal grammar. -/
 def specStr (tgt : Ty) (w : String) (r : Res) : Bool :=
   match tgt.range, tgt.must, tgt.fmt with
@@ -427,8 +432,7 @@ def specStr (tgt : Ty) (w : String) (r : Res) : Bool :=
       -- "inf"/"nan" spellings convert to ±Inf/NaN; absurd exponents and the unmodelled hexadecimal / `_` forms are
       -- left open; anything else is not a number at all ("abc", "", "1 2"): it must not come back as a finite value
       -- with a nil error (a swallowed parse error would invent a number)
-      (decimalSyntax w).isSome || w.toList.any (fun c => c == 'x' || c == 'X' || c == 'p' || c == 'P' || c == '_') ||
-      r.err != .ok || (match floatOf r.val with | some y => !y.isFin | none => false)
+      leftOpen w || r.err != .ok || (match floatOf r.val with | some y => !y.isFin | none => false)
   | _, _, _ => true       -- ToBool of a string is outside the property
 
 /-- The whole property for one conversion. -/
